@@ -255,13 +255,14 @@ add_user(uid_t u)
 }
 
 /* fault plan for the checkpoint system calls (C06) */
-static int fault_armed, fault_at, fault_kind, fault_count;	/* kind 0: crash, 1: ENOSPC, 2: EIO, 3: EINTR */
+static int fault_at = -1, fault_kind, fault_count;	/* kind 0: crash, 1: ENOSPC, 2: EIO, 3: EINTR */
+static int is_chk_fd[4096];
+/* every checkpoint system call is numbered from the start of the session and logged; the FAULT op picks one */
 static int
 fault_here(const char *what)
 {
-	if (!fault_armed) return 0;
 	fault_count++;
-	if (fault_armed == 2) tprintf("SYSCALL %d %s\n", fault_count, what);
+	tprintf("SYSCALL %d %s\n", fault_count, what);
 	if (fault_count == fault_at) {
 		if (fault_kind == 0) {
 			/* the process dies here: flush the trace first */
@@ -279,16 +280,22 @@ static int
 h_openat(int dfd, const char *fn, int fl, ...)
 {
 	mode_t m = 0;
+	int fd;
 	if (fl & O_CREAT) { va_list ap; va_start(ap, fl); m = va_arg(ap, mode_t); va_end(ap); }
-	if ((fl & O_CREAT) && !strncmp(fn, ".echsq_", 7) && fault_here("openat") < 0) return -1;
-	return openat(dfd, fn, fl, m);
+	if (!((fl & O_CREAT) && !strncmp(fn, ".echsq_", 7))) return openat(dfd, fn, fl, m);
+	if (fault_here("openat") < 0) return -1;
+	fd = openat(dfd, fn, fl, m);
+	if (fd >= 0 && fd < 4096) is_chk_fd[fd] = 1;
+	return fd;
 }
-static int is_chk_fd[4096];
 static int
 h_renameat(int a, const char *x, int b, const char *y)
 {
+	int r;
 	if (fault_here("renameat") < 0) return -1;
-	return renameat(a, x, b, y);
+	r = renameat(a, x, b, y);
+	if (!r) tprintf("RENAMED %s\n", y);
+	return r;
 }
 static int
 h_unlinkat(int a, const char *x, int f)
@@ -424,7 +431,7 @@ sut_daemon_tstamp(sut_inst_t s)
  *   EXITN k                     the (k mod n)-th of the n running children exits
  *   EXITALL                     deliver exits for all running children (oldest first)
  *   CHK                         cptim_cb (the 60 s checkpoint timer)
- *   FAULT k kind                arm: the k-th checkpoint system call from now on fails (kind 1..3) or the process dies (kind 0)
+ *   FAULT k kind                the k-th checkpoint system call of the session fails (kind 1..3) or the process dies there (kind 0)
  *   TRACECALLS                  arm: log every checkpoint system call
  *   SHUT                        free_echsd() equivalent: final checkpoint
  *   RELOAD                      echsd_inject_queues() on the spool
@@ -524,9 +531,8 @@ sut_daemon_session(const char *spooldir, const char *script, size_t len, sut_buf
 			tprintf("CHK-DONE\n");
 		} else if (!strncmp(line, "FAULT ", 6)) {
 			sscanf(line + 6, "%d %d", &fault_at, &fault_kind);
-			fault_armed = 1; fault_count = 0;
 		} else if (!strncmp(line, "TRACECALLS", 10)) {
-			fault_armed = 2; fault_count = 0; fault_at = -1;
+			;	/* (always on) */
 		} else if (!strncmp(line, "SHUT", 4)) {
 			chkpnt();
 			tprintf("SHUT-DONE\n");
